@@ -58,6 +58,8 @@ type State struct {
 	ListPages []uint64 // pages holding the free list
 	WALPages  []uint64 // pages holding the overwrite mapping
 	Mapping   map[uint64]uint64
+	// Unowned (filled by Check): pages below the file end that are neither live, free, nor metadata
+	Unowned []uint64
 }
 
 // Decode picks the header a recovery would use (valid, newest by signed txid
@@ -205,6 +207,21 @@ func (st *State) Check(live []uint64) []string {
 	}
 	for k, v := range st.Mapping {
 		claim(v, fmt.Sprintf("the overwrite page of %d", k), end)
+	}
+	// completeness: every page below the file end belongs to someone
+	// (pages between the data end and the maximum size are the unused part of the data area, also when
+	// metadata of the overflow area lies behind them)
+	maxPages := uint64(0)
+	if st.Header.PageSize > 0 {
+		maxPages = st.Header.MaxSize / uint64(st.Header.PageSize)
+	}
+	for id := uint64(2); id < end; id++ {
+		if _, ok := owner[id]; !ok {
+			if id >= st.Header.DataEnd && (maxPages == 0 || id < maxPages) {
+				continue
+			}
+			st.Unowned = append(st.Unowned, id)
+		}
 	}
 	if uint64(len(st.MetaFree)) > st.Header.MetaTotal {
 		out = append(out, fmt.Sprintf("%d free meta pages but a meta area of %d pages", len(st.MetaFree), st.Header.MetaTotal))
